@@ -80,7 +80,9 @@ main() {
 uptodate () {
     (set -e
      DIR=$CURRENT
-     [ -d $NEXT ] && DIR=$NEXT
+     # Directory 'next' is only valid, if last compile has failed.
+     # Otherwise it is a leftover from an aborted run.
+     [ -d $NEXT ] && [ -f $POLICYDB/failed ] && DIR=$NEXT
      [ -f "$DIR/src/.git/refs/heads/master" ] || return 1
      cd $DIR/src
      rev1=$(git rev-parse HEAD)
